@@ -359,9 +359,16 @@ def _binary(name, x, y):
 
 def _mk2(name):
     def uf(x, y, out=None, **kw):
-        if out is not None or kw:
+        if kw:
             raise ModelGap("ufunc kwargs")
-        return _binary(name, x, y)
+        r = _binary(name, x, y)
+        if out is not None:
+            # the result is written into the given buffer (and through every view of it)
+            if not isinstance(out, ndarray) or tuple(out.shape) != tuple(asarray(r).shape):
+                raise ModelGap("ufunc out= of another shape")
+            out[...] = r
+            return out
+        return r
     uf.__name__ = name
     return uf
 
@@ -1758,6 +1765,16 @@ def moveaxis(a, source, destination):
 def atleast_1d(a):
     a = asarray(a)
     return a.reshape((1,)) if a.ndim == 0 else a
+
+
+class broadcast(object):
+    def __init__(self, *arrs):
+        from ._core import _bshape
+        sh = ()
+        for a in arrs:
+            sh = _bshape(sh, tuple(asarray(a).shape))
+        self.shape = tuple(sh)
+        self.nd = self.ndim = len(self.shape)
 
 
 def broadcast_to(a, shape):
